@@ -347,7 +347,56 @@ def check_case(case):
         close_worlds()
 
 
+def explore_big(acc, shard):
+    """Large files (about 70 KB and 1.1 MB): a reduced fault enumeration, the clauses are the same."""
+    _, fsname, ext, enc, variant = shard
+    layer = f"big files, {fsname} {ext} {enc} {variant}"
+    try:
+        case = None
+        for output, backup in ((False, False), (False, True), (True, True)):
+            base = {"fs": fsname, "ext": ext, "enc": enc, "with_chart": True, "key_only": False, "output": output, "backup": backup, "variant": variant, "stale": False}
+            for exc in ("ValueError", "CancelMutation"):
+                for script, at in (([], 0), (["title_ascii"], 1)):
+                    case = dict(base, kind="body", script=script, at=at, exc=exc)
+                    core.guard(acc, case)
+                    fails, _ = do_case(case)
+                    acc.count("evaluations")
+                    acc.count("nontrivial")
+                    for f in fails:
+                        acc.violation(f["clause"], case, f.get("expected"), f.get("observed"), signature=(f["clause"], "big"))
+            for fault in [k for k in encoding_faults(enc) if k.startswith("last parameter") or k.startswith("appended chart")][:4]:
+                case = dict(base, kind="encoding", script=[], fault=fault)
+                core.guard(acc, case)
+                fails, _ = do_case(case)
+                acc.count("evaluations")
+                acc.count("nontrivial")
+                for f in fails:
+                    acc.violation(f["clause"], case, f.get("expected"), f.get("observed"), signature=(f["clause"], "big"))
+            case0 = dict(base, kind="faultfree", script=["title_ascii"])
+            core.guard(acc, case0)
+            fails, r0 = do_case(case0)
+            for f in fails:
+                acc.violation(f["clause"], case0, f.get("expected"), f.get("observed"), signature=(f["clause"], "big"))
+            for k in range(len(r0["calls"])):
+                case = dict(base, kind="io", script=["title_ascii"], k=k)
+                core.guard(acc, case)
+                fails, r = do_case(case)
+                acc.count("evaluations")
+                acc.count("nontrivial")
+                acc.count("fault_points")
+                for f in fails:
+                    acc.violation(f["clause"], case, f.get("expected"), f.get("observed"), signature=(f["clause"], "big"))
+            acc.count("states")
+            acc.count("transitions")
+        acc.outcome("file larger than 65536 characters" if variant == "big70k" else "file larger than one MiB")
+        acc.sample(layer, {k: v for k, v in case.items()})
+    finally:
+        close_worlds()
+
+
 def explore_shard(acc, shard):
+    if shard[0] == "big":
+        return explore_big(acc, shard)
     _, fsname, ext, enc, maxlen = shard
     layer = f"{fsname} {ext} {enc}"
     try:
@@ -430,6 +479,11 @@ def explore(run_):
         for ext in (".sm", ".ssc"):
             for enc in MU.ENCODINGS:
                 shards.append(("F", fsname, ext, enc, maxlen if (fsname == "mem" or run_.thorough()) else 1))
+    for fsname in ("mem", "nat"):
+        for ext in (".sm", ".ssc"):
+            for enc in (("utf-8", "cp1252", "cp932") if run_.thorough() else ("cp1252",)):
+                shards.append(("big", fsname, ext, enc, "big70k"))
+            shards.append(("big", fsname, ext, "utf-8", "big1m"))
     k = run_.seed % len(shards)
     shards = shards[k:] + shards[:k]
     run_.merge(core.pmap(explore_shard, shards, run_.seed))
@@ -441,6 +495,7 @@ def explore(run_):
         "serialization faults = non-string value in the first/middle/last property, SSC chart without note data first/last; "
         "encoding faults = a character the detected encoding lacks in the first/middle/last parameter or an appended chart; "
         "I/O faults = the numbered calls (open, write, flush, close) of a fault-free run, one failure injected at every index k. "
+        "Big files (about 70 KB in CP1252, 1.1 MB in UTF-8): body faults, encoding faults in the last parameter / an appended chart, and an I/O fault at every call, with and without backup / output name. "
         "Every enumerated fault point is a distinct non-trivial case."
     )
     run_.assumptions = [
@@ -449,6 +504,7 @@ def explore(run_):
     ]
     for what in ("body fault: cancel", "body fault: exception", "serialization fault", "encoding fault", "I/O fault at open", "I/O fault at write", "I/O fault at close"):
         core.require(acc.outcomes[what] > 0, f"never exercised: {what}")
+    core.require(acc.outcomes["file larger than 65536 characters"] > 0 and acc.outcomes["file larger than one MiB"] > 0, "no big file")
     core.require(acc.outcomes["output name that denotes the input file"] > 0, "output name = input never tried")
     core.require(acc.outcomes["output / backup name already taken by an older file"] > 0, "no pre-existing output / backup file")
     return run_.finish(
